@@ -24,14 +24,14 @@ class Path(object):
     def cond(self, text):
         """True/False if the path fixed this condition, None if it did not test it."""
         for t, v in self.conds:
-            if t == text or t == text + ' @before':
+            if t == text or t.startswith(text + ' @before'):
                 return v
         return None
 
     def last_cond(self, text):
         out = None
         for t, v in self.conds:
-            if t == text or t == text + ' @before':
+            if t == text or t.startswith(text + ' @before'):
                 out = v
         return out
 
@@ -157,7 +157,8 @@ def enumerate_paths(stmts, limit=4000):
                     if isinstance(st, ast.AugAssign):
                         # x += n keeps "x is not None"
                         keep = {'%s is not None' % n for n in names} | {'%s is None' % n for n in names}
-                    conds = [((t + ' @before') if pat.search(t) and not t.endswith('@before') and t not in keep
+                    gen = sum(1 for t, _ in conds if ' @before' in t) + 1
+                    conds = [((t + ' @before%d' % gen) if pat.search(t) and ' @before' not in t and t not in keep
                               else t, v) for t, v in conds]
                     if isinstance(st, ast.Assign) and len(names) == 1 and isinstance(st.targets[0], ast.Name):
                         v = st.value
